@@ -1,4 +1,5 @@
 """C02 Dimensional analysis is sound.  DESIGN.md section 4, C02."""
+import re
 import cg
 import hirutil as H
 import k2
@@ -488,7 +489,7 @@ def zero_exponent(chk, F):
         nonlocal n
         n += 1
         ok = cls in ("nonzero",) or filtered
-        j = JUSTIFIED.get((fn.path, key))
+        j = JUSTIFIED.get((re.sub(r"\{closure#\d+\}", "{closure}", fn.path), key))
         if not ok and j is not None:
             reason, check = j
             if check(F, fn):
@@ -621,7 +622,7 @@ def _helper_called_with_entries(F, fn):
 JUSTIFIED = {
     ("algorithms::fast_decompose::fast_decompose", "insert:exponent"):
         ("the exponent is drawn from the literal array [-1, 1, 2] (all array literals in fast_decompose are non-zero integers)", _array_literals_nonzero),
-    ("loader::context::Context::describe_unit::{closure#1}", "new_dim:exponent"):
+    ("loader::context::Context::describe_unit::{closure}", "new_dim:exponent"):
         ("temporary lookup key built from an existing entry's exponent (helper is only called with `pow`/`-pow` of the unit being described); never stored in a result",
          _helper_called_with_entries),
 }
